@@ -36,6 +36,9 @@ CHECKS = {
  'C12': dict(cat=MC, technique='TLA+ model of the Haigh-diagram segment walk as coded (distance-sorted segment loops, boundary rule, flipping point) vs the iso-damage line in exact rationals (spec/meanstress/Haigh.tla), plus the matrix re-binning predicate (Rebin.tla); TLC enumerates cycles x diagrams x target R; every state evaluated through the plain functions and both accessors',
    text='TLC proves walk = iso-damage line, fixed point, idempotence, path independence and monotonicity on the rational lattice (incl. R = -inf, R > 1, segment borders, five-segment diagrams) and each lattice state is an implementation test with the exact expected amplitude; interface agreement and two-step paths are checked on the code; the matrix interface is checked for total conservation and exact class placement on border-hitting ranges.',
    note='restricted (as the property) to cycles whose exact iso-damage amplitude stays positive; open finding C12-M4-ninf', ref='5 C12'),
+ 'C13': dict(cat=MC, technique='TLA+ definition of broadcasting as a join of key tuples on shared index levels plus the recode/restore identity of the index cache (spec/broadcast); TLC enumerates every level-name layout x key set in the domain; each configuration built as pandas operands and Broadcaster.broadcast compared row by row, operands compared with deep copies',
+   text='The space of level layouts (equal, disjoint, contained, overlapping, unnamed, falsy-named, coinciding key/code values) and small key sets is finite; TLC computes the definition-level result for each configuration and checks its consistency theorems, and every configuration is replayed into the real Broadcaster (Series/DataFrame kinds by seed); scalar/array/parameter-vector paths and a downstream Woehler calculation are checked separately.',
+   note='row order and level order of the result are not prescribed by C13 and not compared; four open findings (C13-order2, C13-2x2overlap, C13-order3-keys, C13-int-level-name)', ref='5 C13'),
 }
 PENDING = 'check not built yet in this round (planned, see DESIGN.md section 5)'
 NA = {
